@@ -425,9 +425,8 @@ func (x *Exec) inline(fr *Frame, ci *calleeInfo, args []*Sym, reach *Term, st *S
 // applyContract: assert requires, havoc modifies, assume ensures.
 func (x *Exec) applyContract(fr *Frame, ci *calleeInfo, c *ssa.CallCommon, args []*Sym, reach *Term, st *State, site string) []*Sym {
 	ct := ci.contract
-	for _, u := range ct.Uses {
-		x.vc.theories[u] = true
-	}
+	// the callee's theories are not inherited: a caller lists the theories it needs itself, so that
+	// definitions the callee's own proof needed (e.g. workdef) stay hidden from the caller's queries
 	names, _ := x.paramTypes(ci, c)
 	cargs := args
 	if ci.invoke {
@@ -497,7 +496,9 @@ func (x *Exec) applyContract(fr *Frame, ci *calleeInfo, c *ssa.CallCommon, args 
 			if p.CallName == sn && p.CallOrd == k {
 				cenv := x.baseEnv(fr, st)
 				for j, a := range p.Asserts {
-					x.vc.oblige("point", fmt.Sprintf("point[after %s#%d][%d]", sn, k, j), reach, x.evalClause(cenv, a), pos, a.Src)
+					g := x.evalClause(cenv, a)
+					x.vc.oblige("point", fmt.Sprintf("point[after %s#%d][%d]", sn, k, j), reach, g, pos, a.Src)
+					x.vc.assume(reach, g)
 				}
 			}
 		}
